@@ -29,3 +29,239 @@ pub proof fn lemma_lcp_unique(a: Seq<&str>, b: Seq<&str>, k: int)
     lemma_lcp_skip(a, b, k, 0);
 }
 pub open spec fn idx_for(k: int) -> Option<usize> { if k > 0 { Some((k - 1) as usize) } else { None } }
+
+// ---- make_relative_path: path components, the text it writes, and resolution against a directory (C19) ----
+pub open spec fn is_sep(c: char) -> bool { c == '/' || c == '\\' }
+/// the non-empty maximal runs of non-separator characters, in order (a character that is not a separator starts a new component
+/// when a separator or the end follows it, and otherwise joins the component that starts right after it)
+pub open spec fn components(cs: Seq<char>) -> Seq<Seq<char>> decreases cs.len() {
+    if cs.len() == 0 { Seq::empty() }
+    else if is_sep(cs[0]) { components(cs.drop_first()) }
+    else if cs.len() == 1 || is_sep(cs[1]) { seq![seq![cs[0]]] + components(cs.drop_first()) }
+    else { seq![seq![cs[0]] + components(cs.drop_first())[0]] + components(cs.drop_first()).drop_first() }
+}
+pub open spec fn ordinary(w: Seq<char>) -> bool { w.len() > 0 && forall|j: int| 0 <= j < w.len() ==> !is_sep(#[trigger] w[j]) }
+pub proof fn lemma_components_nonempty(cs: Seq<char>)
+    requires cs.len() > 0, !is_sep(cs[0])
+    ensures components(cs).len() > 0
+    decreases cs.len()
+{
+    if cs.len() == 1 || is_sep(cs[1]) {} else { assert(cs.drop_first()[0] == cs[1]); lemma_components_nonempty(cs.drop_first()); }
+}
+pub proof fn lemma_components_ordinary(cs: Seq<char>)
+    ensures forall|i: int| 0 <= i < components(cs).len() ==> ordinary(#[trigger] components(cs)[i])
+    decreases cs.len()
+{
+    if cs.len() == 0 {} else {
+        lemma_components_ordinary(cs.drop_first());
+        let r = components(cs.drop_first());
+        if is_sep(cs[0]) {} else if cs.len() == 1 || is_sep(cs[1]) {
+            assert forall|i: int| 0 <= i < components(cs).len() implies ordinary(#[trigger] components(cs)[i]) by { if i > 0 { assert(components(cs)[i] == r[i - 1]); } }
+        } else {
+            assert(cs.drop_first()[0] == cs[1]);
+            lemma_components_nonempty(cs.drop_first());
+            assert forall|i: int| 0 <= i < components(cs).len() implies ordinary(#[trigger] components(cs)[i]) by {
+                if i > 0 { assert(components(cs)[i] == r[i]); } else {
+                    let w = seq![cs[0]] + r[0];
+                    assert(components(cs)[0] == w);
+                    assert forall|j: int| 0 <= j < w.len() implies !is_sep(#[trigger] w[j]) by { if j > 0 { assert(w[j] == r[0][j - 1]); } }
+                }
+            }
+        }
+    }
+}
+/// a word followed by a separator and anything: the word is the first component
+pub proof fn lemma_components_word_sep(w: Seq<char>, sep: char, rest: Seq<char>)
+    requires ordinary(w), is_sep(sep)
+    ensures components(w + seq![sep] + rest) == seq![w] + components(rest)
+    decreases w.len()
+{
+    let cs = w + seq![sep] + rest;
+    assert(cs[0] == w[0]);
+    if w.len() == 1 {
+        assert(cs[1] == sep);
+        assert(cs.drop_first() == seq![sep] + rest);
+        assert((seq![sep] + rest).drop_first() == rest);
+        assert((seq![sep] + rest)[0] == sep);
+        assert(seq![cs[0]] == w);
+        assert(components(seq![sep] + rest) == components(rest));
+        assert(components(cs) == seq![seq![cs[0]]] + components(cs.drop_first()));
+    } else {
+        let w1 = w.drop_first();
+        assert(cs[1] == w[1]);
+        assert(cs.drop_first() == w1 + seq![sep] + rest);
+        assert forall|j: int| 0 <= j < w1.len() implies !is_sep(#[trigger] w1[j]) by { assert(w1[j] == w[j + 1]); }
+        lemma_components_word_sep(w1, sep, rest);
+        let r = components(cs.drop_first());
+        assert(r[0] == w1);
+        assert(seq![cs[0]] + w1 == w);
+        assert(r.drop_first() == components(rest));
+        assert(!is_sep(cs[1]));
+        assert(components(cs) == seq![seq![cs[0]] + r[0]] + r.drop_first());
+    }
+}
+pub proof fn lemma_components_word(w: Seq<char>)
+    requires ordinary(w)
+    ensures components(w) == seq![w]
+    decreases w.len()
+{
+    if w.len() == 1 { assert(w.drop_first() == Seq::<char>::empty()); assert(components(w.drop_first()) == Seq::<Seq<char>>::empty()); assert(seq![w[0]] == w); assert(seq![seq![w[0]]] + Seq::<Seq<char>>::empty() == seq![w]); } else {
+        let w1 = w.drop_first();
+        assert forall|j: int| 0 <= j < w1.len() implies !is_sep(#[trigger] w1[j]) by { assert(w1[j] == w[j + 1]); }
+        lemma_components_word(w1);
+        assert(seq![w[0]] + w1 == w);
+        assert(seq![w1].drop_first() == Seq::<Seq<char>>::empty());
+        assert(!is_sep(w[1]));
+        assert(components(w) == seq![seq![w[0]] + components(w1)[0]] + components(w1).drop_first());
+        assert(seq![w] + Seq::<Seq<char>>::empty() == seq![w]);
+    }
+}
+pub open spec fn repeat_str(s: Seq<char>, n: nat) -> Seq<char> decreases n { if n == 0 { Seq::empty() } else { s + repeat_str(s, (n - 1) as nat) } }
+pub open spec fn join_spec(v: Seq<Seq<char>>, sep: Seq<char>) -> Seq<char> decreases v.len() {
+    if v.len() == 0 { Seq::empty() } else if v.len() == 1 { v[0] } else { v[0] + sep + join_spec(v.drop_first(), sep) }
+}
+pub proof fn lemma_components_join(v: Seq<Seq<char>>)
+    requires forall|i: int| 0 <= i < v.len() ==> ordinary(#[trigger] v[i])
+    ensures components(join_spec(v, "/"@)) == v, v.len() > 0 ==> join_spec(v, "/"@).len() > 0
+    decreases v.len()
+{
+    reveal_strlit("/");
+    if v.len() == 0 {} else if v.len() == 1 { lemma_components_word(v[0]); assert(seq![v[0]] == v); } else {
+        assert forall|i: int| 0 <= i < v.drop_first().len() implies ordinary(#[trigger] v.drop_first()[i]) by { assert(v.drop_first()[i] == v[i + 1]); }
+        lemma_components_join(v.drop_first());
+        assert("/"@ == seq!['/']);
+        lemma_components_word_sep(v[0], '/', join_spec(v.drop_first(), "/"@));
+        assert(seq![v[0]] + v.drop_first() == v);
+    }
+}
+pub open spec fn dotdots(n: nat) -> Seq<Seq<char>> { Seq::new(n, |i: int| ".."@) }
+pub proof fn lemma_components_updirs(n: nat, rest: Seq<char>)
+    ensures components(repeat_str("../"@, n) + rest) == dotdots(n) + components(rest)
+    decreases n
+{
+    reveal_strlit("../"); reveal_strlit("..");
+    if n == 0 { assert(repeat_str("../"@, 0) + rest == rest); assert(dotdots(0) + components(rest) == components(rest)); } else {
+        let r1 = repeat_str("../"@, (n - 1) as nat) + rest;
+        lemma_components_updirs((n - 1) as nat, rest);
+        assert("../"@ == ".."@ + seq!['/']);
+        assert(repeat_str("../"@, n) + rest == ".."@ + seq!['/'] + r1);
+        assert(ordinary(".."@));
+        lemma_components_word_sep(".."@, '/', r1);
+        assert(seq![".."@] + (dotdots((n - 1) as nat) + components(rest)) == dotdots(n) + components(rest));
+    }
+}
+/// resolving a relative path, component by component, against a directory given by its components
+pub open spec fn resolve(dir: Seq<Seq<char>>, rel: Seq<Seq<char>>) -> Seq<Seq<char>> decreases rel.len() {
+    if rel.len() == 0 { dir }
+    else if rel[0] == ".."@ { resolve(dir.drop_last(), rel.drop_first()) }
+    else if rel[0] == "."@ { resolve(dir, rel.drop_first()) }
+    else { resolve(dir.push(rel[0]), rel.drop_first()) }
+}
+pub open spec fn plain(v: Seq<Seq<char>>) -> bool { forall|i: int| 0 <= i < v.len() ==> #[trigger] v[i] != ".."@ && v[i] != "."@ }
+pub proof fn lemma_resolve_up(dir: Seq<Seq<char>>, n: nat, rel: Seq<Seq<char>>)
+    requires n <= dir.len()
+    ensures resolve(dir, dotdots(n) + rel) == resolve(dir.subrange(0, dir.len() - n), rel)
+    decreases n
+{
+    if n == 0 { assert(dotdots(0) + rel == rel); assert(dir.subrange(0, dir.len() as int) == dir); } else {
+        let r = dotdots(n) + rel;
+        assert(r[0] == ".."@);
+        assert(r.drop_first() == dotdots((n - 1) as nat) + rel);
+        lemma_resolve_up(dir.drop_last(), (n - 1) as nat, rel);
+        assert(dir.drop_last().subrange(0, dir.len() - 1 - (n - 1)) == dir.subrange(0, dir.len() - n));
+    }
+}
+pub proof fn lemma_resolve_down(dir: Seq<Seq<char>>, rel: Seq<Seq<char>>)
+    requires plain(rel)
+    ensures resolve(dir, rel) == dir + rel
+    decreases rel.len()
+{
+    if rel.len() == 0 { assert(dir + rel == dir); } else {
+        assert forall|i: int| 0 <= i < rel.drop_first().len() implies #[trigger] rel.drop_first()[i] != ".."@ && rel.drop_first()[i] != "."@ by { assert(rel.drop_first()[i] == rel[i + 1]); }
+        lemma_resolve_down(dir.push(rel[0]), rel.drop_first());
+        assert(dir.push(rel[0]) + rel.drop_first() == dir + rel);
+    }
+}
+
+/// p leading components are shared and the next ones (if both exist) differ
+pub open spec fn is_lcpv(a: Seq<Seq<char>>, b: Seq<Seq<char>>, p: int) -> bool {
+    0 <= p <= a.len() && p <= b.len() && a.subrange(0, p) == b.subrange(0, p) && !(p < a.len() && p < b.len() && a[p] == b[p])
+}
+/// what make_relative_path writes for target components t and base-directory components d sharing p leading components
+pub open spec fn rel_text(t: Seq<Seq<char>>, d: Seq<Seq<char>>, p: int) -> Seq<char> {
+    let s = repeat_str("../"@, (d.len() - p) as nat) + join_spec(t.subrange(p, t.len() as int), "/"@);
+    if s.len() == 0 { "."@ } else { s }
+}
+pub open spec fn base_dir(b: Seq<Seq<char>>) -> Seq<Seq<char>> { if b.len() == 0 { b } else { b.drop_last() } }
+pub open spec fn rel_post(base: Seq<char>, target: Seq<char>, res: Seq<char>) -> bool {
+    exists|p: int| #[trigger] is_lcpv(components(target), base_dir(components(base)), p) && res == rel_text(components(target), base_dir(components(base)), p)
+}
+pub proof fn lemma_lcp_props(a: Seq<&str>, b: Seq<&str>, k: int)
+    requires common_upto(a, b, k)
+    ensures is_lcp(a, b, lcp_from(a, b, k)), k <= lcp_from(a, b, k) <= a.len(), lcp_from(a, b, k) <= b.len() || lcp_from(a, b, k) == k
+    decreases a.len() - k
+{
+    if 0 <= k < a.len() && k < b.len() && a[k]@ == b[k]@ { lemma_lcp_props(a, b, k + 1); }
+}
+pub proof fn lemma_lcp_views(a: Seq<&str>, b: Seq<&str>)
+    ensures is_lcpv(views(a), views(b), lcp_len(a, b))
+{
+    lemma_lcp_props(a, b, 0);
+    let k = lcp_len(a, b);
+    assert(k <= b.len()) by { if k > 0 { assert(a[k - 1]@ == b[k - 1]@ && k - 1 < b.len()); } }
+    assert(views(a).subrange(0, k) =~= views(b).subrange(0, k)) by {
+        assert forall|j: int| 0 <= j < k implies views(a).subrange(0, k)[j] == views(b).subrange(0, k)[j] by { assert(a[j]@ == b[j]@); }
+    }
+}
+pub proof fn lemma_is_lcpv_sym(a: Seq<Seq<char>>, b: Seq<Seq<char>>, p: int)
+    requires is_lcpv(a, b, p) ensures is_lcpv(b, a, p)
+{}
+//@ lemma_make_relative_path_leads_to_target [C19]
+/// C19 as a theorem over the contract: resolving what make_relative_path returns against the directory of the base file gives the target,
+/// and the result is "." only when the target is that directory
+pub proof fn lemma_make_relative_path_leads_to_target(base: Seq<char>, target: Seq<char>, res: Seq<char>)
+    requires rel_post(base, target, res), plain(components(target))
+    ensures resolve(base_dir(components(base)), components(res)) == components(target),
+        res == "."@ ==> components(target) == base_dir(components(base)),
+        components(target) == base_dir(components(base)) ==> res == "."@,
+{
+    reveal_strlit("."); reveal_strlit("../"); reveal_strlit("/"); reveal_strlit("..");
+    let t = components(target); let d = base_dir(components(base));
+    let p = choose|p: int| #[trigger] is_lcpv(t, d, p) && res == rel_text(t, d, p);
+    let n = (d.len() - p) as nat;
+    let tail = t.subrange(p, t.len() as int);
+    let s = repeat_str("../"@, n) + join_spec(tail, "/"@);
+    lemma_components_ordinary(target);
+    assert forall|i: int| 0 <= i < tail.len() implies ordinary(#[trigger] tail[i]) by { assert(tail[i] == t[p + i]); }
+    lemma_components_join(tail);
+    lemma_components_updirs(n, join_spec(tail, "/"@));
+    assert(components(s) == dotdots(n) + tail);
+    lemma_resolve_up(d, n, tail);
+    assert(plain(tail)) by { assert forall|i: int| 0 <= i < tail.len() implies #[trigger] tail[i] != ".."@ && tail[i] != "."@ by { assert(tail[i] == t[p + i]); } }
+    lemma_resolve_down(d.subrange(0, p), tail);
+    assert(d.subrange(0, p) + tail == t) by { assert(t.subrange(0, p) + tail == t); }
+    assert(resolve(d, components(s)) == t);
+    lemma_repeat_len(n);
+    if s.len() == 0 {
+        assert(n == 0 && tail.len() == 0);
+        assert(t == d) by { assert(t.subrange(0, p) == t); assert(d.subrange(0, p) == d); }
+        assert(ordinary("."@));
+        lemma_components_word("."@);
+        assert(resolve(d, seq!["."@]) == d) by { assert(seq!["."@].drop_first() == Seq::<Seq<char>>::empty()); assert(resolve(d, Seq::<Seq<char>>::empty()) == d); }
+    } else {
+        if res == "."@ {
+            // a non-empty s equal to "." is impossible: it would start with ".." or be a plain component
+            if n > 0 { assert(s[1] == '.'); assert(s.len() >= 3); }
+            else { assert(s == join_spec(tail, "/"@)); assert(components(s) == tail); lemma_components_word("."@); assert(tail == seq!["."@]); assert(tail[0] == t[p]); }
+        }
+        if t == d { assert(p == t.len()) by { if p < t.len() { assert(t[p] == d[p]); } } }
+    }
+}
+pub proof fn lemma_repeat_len(n: nat)
+    ensures repeat_str("../"@, n).len() == 3 * n, n > 0 ==> repeat_str("../"@, n)[1] == '.'
+    decreases n
+{
+    reveal_strlit("../");
+    if n > 0 { lemma_repeat_len((n - 1) as nat); }
+}
+
